@@ -897,7 +897,7 @@ class GitRevisionTree(revisiontree.RevisionTree, GitTree):
         """
         try:
             self._lookup_path(path)
-        except NoSuchFile:
+        except (NoSuchFile, NotTreeError):
             return False
         else:
             return True
